@@ -192,5 +192,6 @@ fn main() {
             Ok(None) => {}
             Err(_) => writeln!(out, "{{\"line\":{},\"panic\":\"panic\"}}", lineno).unwrap(),
         }
+        out.flush().unwrap();
     }
 }
